@@ -86,6 +86,8 @@ func init() {
 				bm = &pgproto3.DataRow{Values: [][]byte{[]byte("x")}}
 			case 'C':
 				bm = &pgproto3.CommandComplete{CommandTag: []byte("SELECT 1")}
+			case 'S':
+				bm = &pgproto3.PortalSuspended{}
 			case 'E':
 				bm = &pgproto3.ErrorResponse{Severity: "ERROR", Code: "XX000", Message: "m"}
 			case 'Z':
@@ -264,7 +266,11 @@ func pendingOps(r *core.Run) {
 						for k := rd.Intn(3); k > 0; k-- {
 							evs = append(evs, "D")
 						}
-						evs = append(evs, "C")
+						if rd.Chance(30) {
+							evs = append(evs, "D", "S") // row-limited Execute: the portal is left suspended
+						} else {
+							evs = append(evs, "C")
+						}
 					}
 				case 'f':
 					if !skipping {
@@ -498,10 +504,34 @@ func corpus(r *core.Run) {
 			res, err = a.C.Execute(st, []fakemy.Param{{Type: fakemy.TypeLong, Data: []byte("1")}, {Type: fakemy.TypeVarString, Data: []byte("SECRETMARKER09")}}, true)
 		}
 		r.Check(err == nil && res != nil && res.Err == "", "session-broken", fmt.Sprintf("corpus 8: prepared upsert failed (%v %v, panic %v)", err, res, a.panicked()))
-		r.Check(!bytes.Contains(w.DB.In.Bytes(), []byte("SECRETMARKER09")), "plaintext-at-database", "COM_STMT_EXECUTE parameter assigned in ON DUPLICATE KEY UPDATE to an encrypted column reached the database in clear (encryptor/mysql/queryDataEncryptor.go encryptInsertValues)")
+		r.Check(!bytes.Contains(w.DB.In.Bytes(), []byte("SECRETMARKER09")), "plaintext-at-database", fmt.Sprintf("COM_STMT_EXECUTE parameter assigned in ON DUPLICATE KEY UPDATE to an encrypted column reached the database in clear (encryptor/mysql/queryDataEncryptor.go encryptInsertValues) [prepares %q, notes %v, rnd pos %d]", w.DB.Prepares, w.DB.Notes, w.Rnd.Pos()))
 		res, err = a.C.Query("select data from t1 where id = 1")
 		r.Check(err == nil && res.Err == "" && len(res.Rows) == 1 && res.Rows[0][0] != nil && string(*res.Rows[0][0]) == "SECRETMARKER09", "owner-read-mismatch", "corpus 8: the owner does not read back the value assigned by ON DUPLICATE KEY UPDATE")
 		w.Close()
+	}
+	// 8b. a command sent the moment the previous response arrives keeps its response handler (fixed: the
+	// database-side goroutine reset the handler after writing the response; the COM_STMT_PREPARE_OK was relayed
+	// unregistered and the parameters of the COM_STMT_EXECUTE were forwarded in clear – about 1 attempt in 7)
+	{
+		r.Begin("corpus-my-response-handler-race", true, "case:corpus")
+		leaked, broken := 0, 0
+		for k := 0; k < 30; k++ {
+			w, a := myOpen()
+			a.C.Query("insert into t1 (id, data) values (1, 'old')")
+			st, _, err := a.C.Prepare("insert into t1 (id, data) values (?, ?)")
+			if err == nil && st != nil {
+				_, err = a.C.Execute(st, []fakemy.Param{{Type: fakemy.TypeLong, Data: []byte("2")}, {Type: fakemy.TypeVarString, Data: []byte("SECRETMARKER13")}}, true)
+			}
+			if err != nil {
+				broken++
+			}
+			if bytes.Contains(w.DB.In.Bytes(), []byte("SECRETMARKER13")) {
+				leaked++
+			}
+			w.Close()
+		}
+		r.Check(broken == 0, "session-broken", fmt.Sprintf("corpus 8b: %d of 30 sessions broke", broken))
+		r.Check(leaked == 0, "plaintext-at-database", fmt.Sprintf("COM_STMT_PREPARE sent right after the response of a COM_QUERY: in %d of 30 sessions the statement was not registered and the COM_STMT_EXECUTE parameter of the encrypted column reached the database in clear (decryptor/mysql/response_proxy.go: handler reset after the response was written)", leaked))
 	}
 	// 9. KNOWN: INSERT … SELECT is not analysed (both front ends)
 	{
